@@ -421,10 +421,15 @@ class Run:
             print(l)
         print('%s: %d obligations, %d discharged (%s), %d bounded cases, %d lemmas, %.1fs' % (
             self.prop, n_obl, n_dis, ', '.join('%s=%d' % kv for kv in sorted(by.items())), bounded_cases, len(self.lemmas), wall))
-        if self.faults:
+        real = [v for v in self.violations if not v['no_input']]
+        if self.faults and not real:
             for f in self.faults:
                 print('CHECKER-FAULT: ' + f)
             return 3
+        if self.faults:
+            # a failing input reproduced on the real code does not depend on the prover: it stands even when the contracts no longer bind
+            for f in self.faults:
+                print('CHECKER-FAULT (reported next to a violation found on the real code): ' + f)
         if self.violations:
             for v in self.violations:
                 print('VIOLATION property=%s replay=%s%s' % (self.prop, v['replay'], ' no-failing-input-found' if v['no_input'] else ''))
